@@ -4,6 +4,7 @@
 // prefix "K01d" on purpose: the object types and the `a || f(x)` splitting of wp k01dec (ext_k01dec.go, gated on "K01d") apply
 // to these kernels too.  monadic.go only calls the hook below (marked `// wp k01dec2`, after the hooks of the other packages).
 //
+//	genRegion -> fc.k01dec2RegionFuel   a region that contains a `for cond` loop or calls a fuelled method takes `(fuel : Nat)`
 //	mblock -> fc.k01dec2Stmt   `v, e := recv.M(args)` / `v, _ = recv.M(args)` / `recv.M(args)` with M a translated method of
 //	                           a struct parameter that WRITES its receiver (e.g. `bits.ReadBits(n)`: BitSource.byteOffset /
 //	                           bitOffset) and/or has several results: the call is bound once, the Go results are assigned to
@@ -255,4 +256,12 @@ func k01dec2Need(module string) {
 		}
 	}
 	extraImports[module] = append(extraImports[module], "Gzx.GoMK01e")
+}
+
+// k01dec2RegionFuel: genRegion does not declare the fuel parameter that a `for cond` loop or a fuelled callee inside the region uses
+func (fc *fnCtx) k01dec2RegionFuel(params []string) []string {
+	if !k01dec2On() || fc.m == nil || !fc.m.fuelUsed {
+		return params
+	}
+	return append([]string{"(fuel : Nat)"}, params...)
 }
